@@ -16,7 +16,9 @@ EXPLANATION = (
     "synthetic source/sink edges together with the user's ignore set; the min-gen-set bound is not computed from ignored edges' values; "
     "(R4) no process exit; (R5) repetition caps: after initialisation a cap is only ever overwritten with 1 and only for non-SCC edges; the cap "
     "each walk model passes is the tabled provider (own flow / w_max, max reachable value, |E||V|); the variable bound of x and the big-M of "
-    "row 22a are that same cap (formulation table).  NOT decided: minimality, completeness, validity of the condensation width as a bound, "
+    "row 22a are that same cap (formulation table); (R6) the options dict is never written; (R7) under every "
+    "optimisation setting an edge inside an SCC is only bounded from below by its multiplicity in a safe sequence (the bounds route equals the "
+    "constraint route), so walks may still repeat a cycle as often as a minimum decomposition needs.  NOT decided: minimality, completeness, validity of the condensation width as a bound, "
     "scale invariance for non-integer weights."
 )
 DECIDED = ["search protocol on every path", "range reaches the largest attainable optimum", "lower-bound providers and width-call convention",
@@ -90,3 +92,6 @@ def check(prog, rep):
     rep.rule("C04.R5", "per-edge repetition caps: providers, overwrite discipline, variable bound and big-M tied to the cap", floor=7)
     repetition_caps(prog, rep, "C04.R5")
     _conformance(prog, rep, "C04.R5", "C04")
+    rep.rule("C04.R7", "safe-sequence fixing never forbids further repetitions of a cycle edge: SCC edges get lower bounds (x >= m) on both option routes", floor=2)
+    from rules.c05 import bound_vs_constraint_route
+    bound_vs_constraint_route(prog, rep, "C04.R7")
